@@ -14,6 +14,7 @@ def construct(c):
 
 def main(tier, seed, t0):
     cases = RJ.c14_cases(tier)
+    cases += RJ.mixed_c14(150 if tier == 'quick' else 1500, seed)
     st, r = runner.stage_batch('c14-' + tier, cases)
     ctx = Ctx(PROP)
     ctx.programs = set(c['id'] for c in cases)
